@@ -35,7 +35,7 @@ PROBES = ["crash_points_enumerated", "crash_inside_copy", "crash_inside_record_w
           "preexisting_backup_survived", "restore_exact_checked", "restore_after_delete", "restore_after_rmdir",
           "restore_tasks_nonempty_writeset", "restore_tasks_checked", "remodel_twice_checked",
           "remodel_modified_between", "second_backup_refused", "isolation_checked", "io_error_injected", "dispatch_reads_backup_checked", "same_manager_retry_after_io_error",
-          "history_restore_killed", "history_remodel_killed"]
+          "history_restore_killed", "history_remodel_killed", "size_preserving_edit", "root_given_through_symlink"]
 RULE = ("Each run is one generated scenario (data tree of 2-8 files in 1-3 directory levels, BIDS-like names with and "
         "without a task entity in both spellings, sizes 0 B-200 kB, optional pre-existing backup, file selection as "
         "run_remodel_backup does it).  Runs with index%3==0 are crash scenarios: every file-system step of one backup "
@@ -174,6 +174,9 @@ def generate(run_index, seed, tier):
     sc = {"tree": _gen_tree(g), "chunk": g.pick([512, 4096, 65536, 1 << 20]),
           "bufsize": g.pick([4096, 65536, 1 << 20]), "permute": g.chance(0.4), "sched_seed": g.randrange(1 << 30),
           "t0": 1.7e9 + g.randrange(10 ** 6)}
+    for f in sc["tree"]:
+        f["age"] = g.pick([0.5, 1.0, 30.0, 3600.0, 86400.0 * 30])
+    sc["root_link"] = g.chance(0.25)
     sc["pre_backup"] = g.chance(0.35)
     names = g.pick([["default_back", "bk1"], ["default_back", "bk1"], ["task-go_orig", "bk1"]])
     if run_index % 3 == 0:
@@ -193,7 +196,8 @@ def generate(run_index, seed, tier):
         r = g.random()
         if r < 0.35:
             ops.append({"op": "modify", "path": g.pick(paths),
-                        "how": g.pick(["append", "truncate", "rewrite", "delete", "delete", "rmdir", "recreate", "chmod"])})
+                        "how": g.pick(["append", "truncate", "rewrite", "delete", "delete", "rmdir", "recreate", "chmod",
+                                      "flip", "flip", "flip-keep-mtime"])})
         elif r < 0.42:
             ops.append({"op": "add", "path": g.pick(["sub-01/new_notes.txt", "newdir/x_beh.tsv", "sub-01/extra.json"]),
                         "size": g.pick([0, 30, 5000])})
@@ -291,19 +295,32 @@ def shrink(sc):
 class _World:
     def __init__(self, W, sc, script):
         self.W, self.sc = W, sc
-        self.root = os.path.join(W["base"], "data")
+        self.real_root = os.path.join(W["base"], "data")
         self.snap = os.path.join(W["base"], "snap")
-        shutil.rmtree(self.root, ignore_errors=True)
+        link = os.path.join(W["base"], "via", "link")
+        if os.path.islink(link):
+            os.unlink(link)
+        shutil.rmtree(self.real_root, ignore_errors=True)
         shutil.rmtree(self.snap, ignore_errors=True)
-        os.makedirs(self.root)
+        os.makedirs(self.real_root)
+        # the path the library is given: the directory itself or (knob) a path with a symbolic-link component
+        self.root = self.real_root
+        if sc.get("root_link"):
+            os.makedirs(os.path.dirname(link), exist_ok=True)
+            os.symlink(self.real_root, link)
+            self.root = link
         for f in sc["tree"]:
-            p = os.path.join(self.root, f["path"])
+            p = os.path.join(self.real_root, f["path"])
             os.makedirs(os.path.dirname(p), exist_ok=True)
             with real_open(p, "wb") as fh:
                 fh.write(_content(f["kind"], f["seed"], f["size"]))
+            # modification times come from the scenario, not from the host clock
+            mt = sc["t0"] - f.get("age", 3600.0)
+            os.utime(p, (mt, mt))
         self.decider = Decider(sc["sched_seed"], script)
         self.sim = Sim(self.decider, max_steps=5000000, start_time=sc["t0"])
-        self.fs = SimFS(self.sim, [self.root], chunk=sc["chunk"], copy_bufsize=sc["bufsize"],
+        self.fs = SimFS(self.sim, [self.root] + ([self.real_root] if self.root != self.real_root else []),
+                        chunk=sc["chunk"], copy_bufsize=sc["bufsize"],
                         permute_listing=sc["permute"], proxy_reads=False, yield_stat=True)
         self.violations = []
         self.probes = {}
@@ -313,6 +330,9 @@ class _World:
 
     def probe(self, k, n=1):
         self.probes[k] = self.probes.get(k, 0) + n
+
+    def rel(self, path):
+        return os.path.relpath(os.path.realpath(path), self.real_root)
 
     def viol(self, clause, detail, sig):
         self.violations.append(Violation(clause, detail.replace(self.W["base"], "<scratch>"), sig).record(PROP))
@@ -470,6 +490,8 @@ def execute(sc, script=None):
     model_dir = os.path.join(W["base"], "models")
     os.makedirs(model_dir, exist_ok=True)
     nontrivial = False
+    if sc.get("root_link"):
+        world.probe("root_given_through_symlink")
     try:
         with fs:
             if sc.get("pre_backup"):
@@ -478,7 +500,7 @@ def execute(sc, script=None):
                 p = world.run_proc("pre-backup", _backup_fn(world, o))
                 if p.state != "done" or p.result is not True:
                     raise RuntimeError("pre-existing backup could not be created: %s %r" % (p.state, p.exc))
-                world.model["older"] = {os.path.relpath(f, world.root): before[os.path.relpath(f, world.root)]
+                world.model["older"] = {world.rel(f): before[world.rel(f)]
                                         for f in _selected_files(W, world.root, o)}
             for oi, o in enumerate(sc["ops"]):
                 kind = o["op"]
@@ -569,7 +591,7 @@ def _do_backup(world, o, oi):
     bdir_before = world.backup_dir_state(name)
     exists_in_model = name in world.model
     try:
-        expected_files = [os.path.relpath(f, world.root) for f in _selected_files(W, world.root, o)]
+        expected_files = [world.rel(f) for f in _selected_files(W, world.root, o)]
     except Exception:  # noqa
         expected_files = None
     p = world.run_proc("backup", _backup_fn(world, o))
@@ -610,7 +632,25 @@ def _do_user_edit(world, o):
         with real_open(p, "wb") as f:
             f.write(_content("other", len(o["path"]), o["size"]))
         return
-    if how in ("append", "truncate", "rewrite", "chmod") and not os.path.isfile(p):
+    if how in ("append", "truncate", "rewrite", "chmod", "flip", "flip-keep-mtime") and not os.path.isfile(p):
+        return
+    if how in ("flip", "flip-keep-mtime"):
+        # an edit that keeps the size (a corrected digit); the editor either stamps the simulated "now" or keeps the times
+        st = os.stat(p)
+        with real_open(p, "rb") as f:
+            d = bytearray(f.read())
+        if not d:
+            return
+        for i in (len(d) // 3, len(d) // 2, len(d) - 2):
+            if 0 <= i < len(d) and d[i] not in (9, 10):
+                d[i] = 0x39 if d[i] != 0x39 else 0x38
+        with real_open(p, "wb") as f:
+            f.write(bytes(d))
+        if how == "flip":
+            os.utime(p, (world.sim.now, world.sim.now))
+        else:
+            os.utime(p, (st.st_atime, st.st_mtime))
+        world.probe("size_preserving_edit")
         return
     if how == "append":
         with real_open(p, "ab") as f:
@@ -704,7 +744,7 @@ def _do_remodel(world, o, oi, model_dir):
         return False
     rec = world.model[name]
     # only judged when the backup covers every events file the remodeler will visit (otherwise it legitimately fails)
-    visit = sorted(os.path.relpath(f, world.root) for f in
+    visit = sorted(world.rel(f) for f in
                    W["io_util"].get_file_list(world.root, name_suffix="events", extensions=[".tsv"],
                                               exclude_dirs=["derivatives", "remodel"]))
     if o.get("tasks") == ["*"]:
@@ -852,7 +892,7 @@ def _mutating(t):
 def _crash_sweep(world, o):
     """Enumerate every file-system step of this backup operation as a crash point."""
     W = world.W
-    root, snap = world.root, world.snap
+    root, snap = world.real_root, world.snap
     name = o["name"]
     shutil.rmtree(snap, ignore_errors=True)
     shutil.copytree(root, snap, symlinks=True)
